@@ -223,8 +223,8 @@ class Gfx(util.BaseSection):
         for y, row in enumerate(sprite):
             for x, val in enumerate(row):
                 if ((val == TRANSPARENT) or
-                    ((first_y_coord + y) > 128) or
-                        ((first_x_coord + x) > 128)):
+                    ((first_y_coord + y) >= 128) or
+                        ((first_x_coord + x) >= 128)):
                     continue
                 data_loc = (first_y_coord + y) * 64 + (first_x_coord + x) // 2
                 b = self._data[data_loc]
